@@ -185,5 +185,17 @@ func checkEVMTxBlockedTarget(tx *Transaction, logHeight int64, txhash string) er
 		tlog.Error("CheckTxBlockedAccount hit", "txhash", txhash, "height", logHeight, "pos", "evmPara", "addr", addr)
 		return fmt.Errorf("%w: evm transfer to %s", ErrBlockedAccount, addr)
 	}
+	// 代理执行交易(executor.proxyExecTx): Para 携带完整的 chain33 交易，真实接收方在内层交易中，
+	// 执行器解包后才会检查；入口层/打包层在此一并解包判定
+	if para := action.GetPara(); len(para) > 20 {
+		inner := new(Transaction)
+		if err := Decode(para, inner); err == nil && len(inner.GetExecer()) > 0 {
+			to := inner.GetTo()
+			if realTo := inner.GetRealToAddr(); IsBlockedAccount(to) || IsBlockedAccount(realTo) {
+				tlog.Error("CheckTxBlockedAccount hit", "txhash", txhash, "height", logHeight, "pos", "proxyInnerTo", "addr", to)
+				return fmt.Errorf("%w: proxied tx to %s", ErrBlockedAccount, to)
+			}
+		}
+	}
 	return nil
 }
